@@ -69,6 +69,13 @@ _add("for3", "for [a, b, c] in x do a end", 1)
 _add("for dup", "for [a, a] in x do a end", 1)
 _add("def destr dup", "do def [a, a] = x; a end", 1)
 _add("assign destr dup", "do def a = 0; [a, a] = x; a end", 1)
+# early continuation of a loop over every iterable kind (input streams too)
+_add("for continue", "do def n = 0; for k in x do n += 1; "
+     "if n > 0 then continue; n += 10; end; n end", 1)
+_add("for continue entries", "do def n = 0; for k in entries x do n += 1; "
+     "if n > 0 then continue; n += 10; end; n end", 1)
+_add("for break", "do def n = 0; for k in x do n += 1; "
+     "if n > 1 then break; end; n end", 1)
 _add("mutate in for", "do def v = x; for k in v do v[string(k) + 'x'] = 1; "
      "end; 1 end", 1)
 _add("mutate in for keys", "do def v = x; for k in keys v do "
@@ -202,6 +209,45 @@ TWIN = {"<*a = 1, _proto_ = itself*>": "<*a = 1, f = fn(self) 1*>",
         "<*_proto_ = cyclic*>": "<**>", "[1, itself]": "[1, 2, 3]"}
 
 
+def malformed(v, depth=0, seen=None):
+    """None, or a description of the first piece of value v that is not a
+    language value (a host object inside a list, a string value whose payload
+    is no host string, ...): such a result raises host exceptions as soon as
+    the program touches it"""
+    V = core.ckl.values
+    if seen is None:
+        seen = set()
+    if not isinstance(v, V.Value):
+        return "element:" + type(v).__name__
+    if depth > 6 or id(v) in seen:
+        return None
+    # (an int value holding a host float or the reverse computes and renders
+    # without host exceptions: not this property's matter)
+    payload = {V.ValueString: str, V.ValueInt: (int, float),
+               V.ValueDecimal: (int, float), V.ValueBoolean: bool,
+               V.ValueList: list, V.ValueSet: set, V.ValueMap: dict,
+               V.ValueObject: dict}.get(type(v))
+    if payload is not None and not isinstance(v.value, payload):
+        return "payload:%s:%s" % (type(v).__name__, type(v.value).__name__)
+    if isinstance(v, (V.ValueList, V.ValueSet)):
+        kids = list(v.value)
+    elif isinstance(v, V.ValueMap):
+        kids = list(v.value.keys()) + list(v.value.values())
+    elif isinstance(v, V.ValueObject):
+        for k in v.value:
+            if not isinstance(k, str):
+                return "member-name:" + type(k).__name__
+        kids = list(v.value.values())
+    else:
+        return None
+    seen.add(id(v))
+    for k in kids:
+        m = malformed(k, depth + 1, seen)
+        if m:
+            return m
+    return None
+
+
 def judge(o, argnames=()):
     """None if fine, else (kind, detail dict)"""
     if o[0] == "host" and o[1] == "RecursionError" and \
@@ -213,6 +259,9 @@ def judge(o, argnames=()):
     if o[0] == "value":
         if not isinstance(o[1], core.ckl.values.Value):
             return {"kind": "non-value-result", "exc": type(o[1]).__name__}
+        m = malformed(o[1])
+        if m:
+            return {"kind": "malformed-result", "exc": m}
         return None
     if o[0] == "rt":
         if not isinstance(o[1], core.ckl.values.Value):
